@@ -92,8 +92,10 @@ def run(tier):
         c.add_trace_result(r, sub, key_fn, what_fn, sample_n=1)
         n_rejects += len(r['rejects'])
     if not n_rejects:
-        good = [e for e in events if e['ev'] == 'pseudo' and len(e.get('records', [])) >= 1
-                and any(o['op'] == 'N' for o in e['records'][0]['cigar'])][:3]
+        good = [e for e in events if e['ev'] == 'pseudo' and e['via'] in ('api', 'api_hist', 'cli', 'cli_nosrc')
+                and len(e.get('records', [])) >= 1
+                and any(o['op'] == 'N' for o in e['records'][0]['cigar'])
+                and any('n' in t for t in e['records'][0]['md']) and 'TF' in e['records'][0]['tags']][:3]
         if len(good) < 3:
             raise vlib.MachineryError('no gapped accepted molecule available for the binding self-test')
 
